@@ -49,6 +49,49 @@ def reuse_case(rep, r: dict) -> None:
                  f"{r['change']}) differently from a fresh element: max |d p| = {d:.3g}, the kick itself is {kick:.3g}", r)
 
 
+def f32_case(rep, r: dict) -> None:
+    """the default dtype is float32: its kick is the float64 kick (which the analytic-field checks of fals/C19.py are made
+    with) to a few per cent at every energy, also where gamma is large and beta rounds to 1"""
+    import numpy as np
+    import torch
+    import cheetah
+    P = np.array(r["particles"], dtype=np.float32).astype(float)
+    kicks = {}
+    for dt in (torch.float32, torch.float64):
+        t = lambda v: torch.tensor(v, dtype=dt)  # noqa: E731
+        sck = cheetah.SpaceChargeKick(effect_length=t(r["L"]), num_grid_points_x=16, num_grid_points_y=16, num_grid_points_tau=16, dtype=dt)
+        b = cheetah.ParticleBeam(t(P), t(float(np.float32(r["energy"]))), particle_charges=t(np.full(P.shape[0], r["Q"] / P.shape[0])), dtype=dt)
+        o = sck.track(b).particles.to(torch.float64).numpy()
+        kicks[dt] = o[:, [1, 3]] - np.asarray(b.particles.to(torch.float64))[:, [1, 3]]
+    k32, k64 = kicks[torch.float32], kicks[torch.float64]
+    rms = float(np.sqrt(np.mean(k64 ** 2)))
+    dev = float(np.sqrt(np.mean((k32 - k64) ** 2)))
+    # float32 coordinates carry eps32 * |px| of round-off: only kicks well above that are compared
+    noise = 1.2e-7 * float(np.abs(P[:, [1, 3]]).max())
+    if rms > 30 * noise and not dev <= 0.05 * rms + 3 * noise:
+        rep.fail("falsifier", f"C19|SpaceChargeKick|float32 vs float64 kick|{'E>=1GeV' if r['energy'] >= 1e9 else 'E<1GeV'}",
+                 f"bunch of {r['Q']:.1e} C at {r['energy']:.3g} eV: rms transverse kick {rms:.3e} in float64, the float32 kick deviates from it by "
+                 f"{dev:.3e} rms", r)
+
+
+def f32_probe(ctx, n: int) -> None:
+    import numpy as np
+    import elements as E
+    rep, rng = ctx.report, ctx.rng
+    for _ in range(n):
+        N = 3000
+        P = np.zeros((N, 7))
+        P[:, 6] = 1.0
+        sig = 10.0 ** rng.uniform(-4.3, -3.3, size=3)
+        P[:, [0, 2, 4]] = rng.normal(size=(N, 3)) * sig
+        r = {"kind": "f32_kick", "particles": P.tolist(), "energy": float(E.pick(rng, 1e8, 1e9, 2.4e9, 6e9, 1.7e10)), "L": float(E.pick(rng, 0.5, 1.0)),
+             "Q": float(E.pick(rng, 1e-9, 5e-9))}
+        rep.fals_cases += 1
+        rep.count(f"probe:f32-kick:{r['energy']:.0e}")
+        rep.case(("f32_kick", r["energy"]), None)
+        f32_case(rep, r)
+
+
 def reuse_probe(ctx, n: int) -> None:
     import numpy as np
     import elements as E
@@ -80,6 +123,7 @@ def reuse_probe(ctx, n: int) -> None:
 
 def run(ctx) -> None:
     reuse_probe(ctx, ctx.n(12, 200))
+    f32_probe(ctx, ctx.n(8, 120))
     run_sc_correspondence(ctx, "C19", ctx.n(40, 800))
     if F is not None:
         F.run(ctx)
@@ -88,6 +132,8 @@ def run(ctx) -> None:
 def corpus_case(ctx, r: dict) -> None:
     if r.get("kind") == "reuse":
         return reuse_case(ctx.report, r)
+    if r.get("kind") == "f32_kick":
+        return f32_case(ctx.report, r)
     if F is not None and hasattr(F, "corpus_case"):
         F.corpus_case(ctx, r)
 
